@@ -5,7 +5,9 @@ import re
 import vlib
 from vlib import Check
 
-KINDS = ["function", "unique_function", "any_sender", "unique_any_sender"]
+KINDS = ["function", "unique_function", "any_sender", "unique_any_sender", "any_sender_ref", "unique_any_sender_ref"]
+# the *_ref kinds wrap senders that complete with an l-value reference; they replay the same behaviours
+MODEL_OF = {"any_sender_ref": "any_sender", "unique_any_sender_ref": "unique_any_sender"}
 
 
 def tlc_cases(chk, kind, cfg, simulate=None, limit=None):
@@ -50,8 +52,9 @@ def run():
     os.makedirs(tdir, exist_ok=True)
     total = 0
     for kind in KINDS:
-        cases = tlc_cases(chk, kind, "WrapperCases_%s_%d.cfg" % (kind, L))
-        cases += tlc_cases(chk, kind, "WrapperSim_%s.cfg" % kind,
+        mk = MODEL_OF.get(kind, kind)
+        cases = tlc_cases(chk, kind, "WrapperCases_%s_%d.cfg" % (mk, L))
+        cases += tlc_cases(chk, kind, "WrapperSim_%s.cfg" % mk,
                            simulate="num=%d" % (4000 if chk.thorough() else 800), limit=20000 if chk.thorough() else 3000)
         path = os.path.join(tdir, "c18-%s-%d.txt" % (kind, os.getpid()))
         with open(path, "w") as f:
